@@ -46,6 +46,19 @@ def loop_item_local(nv, lp):
     return res
 
 
+def bit_test_cond(c):
+    """bit_test for a branch condition in either form: a boolean comparison, or a `match` on the masked word
+    itself (`match (w >> s) & 1 { 0 => .., _ => .. }`)."""
+    term, vals, neg, dty = c
+    ct = cond_truth(c)
+    if ct:
+        return bit_test(ct[0], ct[1])
+    if dty in ("u8", "u16", "u32", "u64", "usize", "i32") and vals == (0,):
+        # arm `0` (not neg): the masked value is zero -> bit clear; the other arm: set
+        return bit_test(("bin", "Ne", term, ("const", 0, dty)), neg)
+    return None
+
+
 def bit_test(t, truth):
     """A condition that tests one bit of a word, however it is spelt:  `w & (1 << s) != 0`,  `(w >> s) & 1 == 1`,
     `(w >> s) & 1 != 0`, and their negations.  Returns (normed word term, shift term, bit is set on this arm)."""
@@ -107,7 +120,13 @@ def run(facts, rep, ctx):
     rb = sorted((hi for lp, lo, hi, tk in rloops if hi is not None and lo == 0))
     wb = sorted((hi for lp, lo, hi, tk in wloops if hi is not None and lo == 0))
     takes = [tk for lp, lo, hi, tk in wloops if tk is not None]
-    has_resize32 = any((callee_names(t)[1] or "").endswith("Vec::<T, A>::resize") and (affine(rd.term_of_operand(t["args"][1]), None) or (None, None))[1] == 32 for bb, t in rd.calls() if len(t["args"]) == 3)
+    fill32 = any((callee_names(t)[1] or callee_names(t)[0] or "").rsplit("::", 1)[-1] == "extend" and len(t["args"]) == 2 and any(
+        x[0] == "call" and x[1].endswith("Iterator::take") and len(x[2]) == 2 and x[2][1][:2] == ("const", 32) for x in walk(rd.term_of_operand(t["args"][1]))) for bb, t in rd.calls())
+    # a table read written as (0..257).map(..).collect()
+    mapped = sorted(x[4][1][1] for bb, t in rd.calls() if (callee_names(t)[0] or "").endswith("Iterator::map") for x in walk(rd.term_of_operand(t["args"][0]))
+                    if x[0] == "agg" and x[2] and x[2].endswith("ops::Range") and len(x[4]) == 2 and x[4][0][:2] == ("const", 0) and x[4][1][0] == "const")
+    rb = sorted(rb + mapped)
+    has_resize32 = fill32 or any((callee_names(t)[1] or "").endswith("Vec::<T, A>::resize") and (affine(rd.term_of_operand(t["args"][1]), None) or (None, None))[1] == 32 for bb, t in rd.calls() if len(t["args"]) == 3)
     if rb == [8, 32, 32, 257] or (rb == [8, 32, 257] and has_resize32):
         rep.ok(R1, {"reader_loops": rb})
     elif len(rb) != 4:
@@ -121,7 +140,7 @@ def run(facts, rep, ctx):
     if wb == [8, 32, 32] and takes == [8]:
         rep.ok(R1, {"writer_loops": wb, "take": takes})
     elif len(wb) != 3 or len(takes) != 1:
-        if set(wb) - {8, 32} or set(takes) - {8}:
+        if set(wb) - {8, 32} or set(takes) - {8, 32}:
             rep.violation(R1, wr.name, "writer-bounds", "writer loops run to %s, emission takes %s groups (specified: 8 x 32, 8)" % (wb, takes), ww)
         else:
             rep.inconc(R1, "writer loop structure not recognised: constant-range loops %s, take %s" % (wb, takes))
@@ -196,6 +215,17 @@ def run(facts, rep, ctx):
             # an iteration of the group loop that fills the 32 slots of an absent group in one go:
             # set.resize(set.len() + 32, None)
             for e in p.events:
+                if e["k"] == "call" and e["callee"] and e["callee"].rsplit("::", 1)[-1] == "extend" and len(e["args"]) == 2:
+                    tk = [x for x in walk(e["args"][1]) if x[0] == "call" and x[1].endswith("Iterator::take") and len(x[2]) == 2 and x[2][1][0] == "const"]
+                    rp = [x for x in walk(e["args"][1]) if x[0] == "call" and x[1].endswith("iter::repeat") and x[2]]
+                    if tk and rp:
+                        v = strip_refs(rp[0][2][0])
+                        mkey = []
+                        for (bb, term, vals, neg, dty) in p.conds:
+                            bt = bit_test_cond((term, vals, neg, dty))
+                            if bt:
+                                mkey.append(bt[2])
+                        resize_absent.append((tk[0][2][1][1], v[0] == "agg" and v[3] == "None", mkey))
                 if e["k"] == "call" and e["callee"] and e["callee"].endswith("Vec::<T, A>::resize") and len(e["args"]) == 3 and e.get("bb", -1) >= 0:
                     af = affine(e["args"][1], None)
                     v = e["args"][2]
@@ -204,8 +234,7 @@ def run(facts, rep, ctx):
                         grow = af[1]
                         mkey = []
                         for (bb, term, vals, neg, dty) in p.conds:
-                            ct = cond_truth((term, vals, neg, dty))
-                            bt = bit_test(ct[0], ct[1]) if ct else None
+                            bt = bit_test_cond((term, vals, neg, dty))
                             if bt:
                                 mkey.append(bt[2])
                         resize_absent.append((grow, is_none, mkey))
@@ -221,8 +250,7 @@ def run(facts, rep, ctx):
         # which branch: bit test truth
         key = []
         for (bb, term, vals, neg, dty) in p.conds:
-            ct = cond_truth((term, vals, neg, dty))
-            bt = bit_test(ct[0], ct[1]) if ct else None
+            bt = bit_test_cond((term, vals, neg, dty))
             if bt is None:
                 continue
             src, shv, is_set = bt
